@@ -1,5 +1,7 @@
 """C11 - allocators hand out disjoint, aligned, in-bounds blocks and lose no memory.
 
+Coq side (coq/C11): Model.v arena/stack/pool, Heap.v memory-level heap, HeapA.v abstract heap (+ payload bytes), Iface.v derived
+operations, Aligned.v; Proofs*.v invariants over all histories; Refine*.v: proved refinement Heap.v -> HeapA.v.
 (T) constants of heap.nelua / stack.nelua / arena.nelua scraped into coq/C11/Gen.v.
 (C) one compiled Nelua driver (harness/C11/driver.nelua) instantiating arena/stack/pool/heap
     allocators at several sizes/alignments is driven INTERACTIVELY (one op per line, the next op is
@@ -18,19 +20,38 @@ import subprocess
 import vlib
 
 ID = "C11"
+CLAIM = True
+MANIFEST_ENTRY = {
+    "text": "Coq theorems (all closed under the global context) over executable models of lib/allocators: for ALL call histories with sizes 0..2^64-1 "
+            "the arena, stack, pool and heap allocators never trip a check on valid calls (arena, heap) and keep the live blocks in bounds, aligned and "
+            "pairwise disjoint; stack LIFO restores its offsets; the pool's free list and live chunks partition the buffer; the heap keeps tiling, exact bins, "
+            "live = used chunks, no two adjacent free chunks, reports invalid frees, and is the fresh heap again once everything is released; realloc keeps "
+            "min(old,new) bytes and alloc0/realloc0 zero exactly the new bytes (arena, heap). The heap theorems are stated on an abstract chunk-list model AND "
+            "transferred to the memory-level model (header words, prev_adj/next/prev links, bins, NODE_COOKIE marks) by a proved refinement: every operation "
+            "of the memory-level model simulates the abstract one (C11_heap_refinement). The derived operations of Allocator_implement_interface "
+            "(alloc0/realloc0/x*/span*/new/delete) are modelled generically over the primitives with theorems that they are the stated primitive calls; "
+            "AlignedAllocator's alignment arithmetic is proved. Two open findings are refuted/partial pairs: span count*#T and AlignedAllocator's request "
+            "size wrap mod 2^64. Models are tied to the code by regenerated constants and line-by-line correspondence of offsets and internal state.",
+    "note": "trusted: Coq 8.16.1 kernel; the hand-written models (tied to /repo by regenerated constants and by differential correspondence of offsets and of the "
+            "complete internal state after every operation, which is testing, not proof); extraction with ExtrOcamlBasic; OCaml/Nelua/Python harness glue. "
+            "Payload bytes are byte functions separate from the header memory; GeneralAllocator (libc) and GCAllocator (C10) are outside; release builds are not exercised.",
+    "technique": "machine-checked proof in Coq over executable models (incl. a proved refinement memory-level -> abstract heap) + extracted-model/implementation "
+                 "correspondence on interactive histories + shadow-map property oracle",
+}
 ALLOWED_AXIOMS = []
 TRUSTED_BASE = [
     "coqc 8.16.1 kernel (vm_compute used for parameter facts and refutation witnesses; no native_compute)",
     "no axioms: every theorem of coq/C11/Properties.v is 'Closed under the global context'; models mirror lib/allocators after the repairs 484ce8f, 961d315, 942c78c, b8d094a",
     "translator checks/C11.py:gen (regex scrape of ALLOC_ALIGN/MIN_ALLOC_SIZE/BIN_COUNT/BIN_MAX_LOOKUPS/NODE_COOKIE/HeapNode fields/get_bin_index constants in heap.nelua, StackAllocHeader + static asserts in stack.nelua, default ALIGN in arena.nelua; typedefs.maxalign and pointer size probed through the real compiler)",
     "extraction: Require Extraction + ExtrOcamlBasic only; Z/positive/nat stay Coq inductives; no Extract Constant of our own",
-    "ocaml/zutil.ml + coq/C11/driver.ml (line protocol, handle table, printing of the model state), harness/C11/driver.nelua (calls the allocators, keeps the handle table, prints offsets and internal state read through the allocator records), OCaml 4.13.1, gcc, the Nelua compiler itself (the driver is compiled by it, default checked build)",
-    "modelled rather than verified: the allocators are mirrored by hand in coq/C11/Model.v and Heap.v; the tie is the line-by-line correspondence of offsets and internal state on every check",
-    "GeneralAllocator (libc malloc) and GCAllocator (property C10) are outside the Coq model; AlignedAllocator is modelled only as the wrapper arithmetic",
+    "ocaml/zutil.ml + coq/C11/driver.ml (line protocol, handle table, closures handing an instance's primitives to the extracted interface wrappers, printing of the model state), harness/C11/driver.nelua (calls the allocators, keeps the handle table, prints offsets and internal state read through the allocator records), OCaml 4.13.1, gcc, the Nelua compiler itself (the driver is compiled by it, default checked build)",
+    "modelled rather than verified: the allocators are mirrored by hand in coq/C11/Model.v (arena/stack/pool), Heap.v (memory-level heap), HeapA.v (abstract heap), Iface.v (derived operations), Aligned.v; the tie is the line-by-line correspondence of offsets and internal state on every check. Heap.v -> HeapA.v is NOT trusted: it is the proved refinement of coq/C11/Refine*.v",
+    "payload contents are byte functions separate from the allocator's own memory (arena a_bytes, heap hb_bytes): that header writes never land in a live payload is a consequence of the placement theorems, not a separate memory-level theorem",
+    "GeneralAllocator (libc malloc/calloc/realloc/free) and GCAllocator (property C10) are outside the Coq models",
 ]
 ASSUMPTIONS = [
     "the buffer is a real object: base > 0 and base + SIZE + ALIGN + header (+ MIN_ALLOC_SIZE for the heap) <= 2^64 (no address wrap)",
-    "clients write only inside blocks they own (frame condition of the stack/pool/heap theorems)",
+    "clients write only inside blocks they own (frame condition of the stack/pool theorems; the heap's memory-level model has no client writes: a stale pointer into a payload can fool the cookie test, so C11_heap_invalid_free_reported transfers to the memory level for pointers to chunk headers only, C11_heap_mem_free_header_reported)",
     "correspondence is differential testing over generated histories, not a proof that model = code",
     "checked (default) build: check()/bounds checks abort; release builds are not exercised",
 ]
@@ -979,8 +1000,8 @@ def correspond(ctx):
     return {
         "evaluations": stats["ops"],
         "distinct_nontrivial": len(distinct),
-        "rule": "histories = the 7 histories of the repaired defects (must pass) + scripted precondition-violating histories (one process each) + corpus + random "
-                "interactive histories (styles mixed/lifo/fifo/realloc-heavy/churn) over 7 arena, 5 stack, 5 pool and 6 heap instances; sizes drawn from 0,1,align+-1, "
+        "rule": "histories = the 7 histories of the repaired defects (must pass) + the 2 open known defects (span count, aligned request) + scripted precondition-violating and x*/new/delete histories (one process each) + corpus + random "
+                "interactive histories (styles mixed/lifo/fifo/realloc-heavy/churn) over 7 arena, 5 stack, 5 pool, 6 heap and 2 AlignedAllocator(arena) instances; sizes drawn from 0,1,align+-1, "
                 "remaining capacity+-1, capacity+-1, free-chunk size +- header/MIN_ALLOC/align (split and grow thresholds), bin boundaries 2^k+-1, 2^63, and the whole "
                 "wrap-around zone up to 2^64-1 (2^64-curr+-k, 2^64-SIZE.., 2^64-47..2^64-1); alloc(0) everywhere; pool deallocall before the first alloc; shrinking "
                 "reallocs in front of free chunks; every history ends by releasing everything and re-requesting the largest initial request. evaluations = operations "
@@ -998,11 +1019,13 @@ def correspond(ctx):
 
 
 UNPROVED = [
-    "refinement between the memory-level heap model (Heap.v: header words, prev_adj/next/prev links, NODE_COOKIE test) and the abstract chunk-list model (HeapA.v) in which the heap theorems are stated is not proved; both are compared with the real allocator line by line on every check",
-    "heap: realloc preserves the first min(old,new) bytes / alloc0,realloc0 zero the new bytes are not theorems (the heap models carry no payload bytes); they are checked on the real allocator by the shadow map only. Proved for the arena; trivial for stack and pool (realloc never moves)",
-    "'a valid history never trips a run-time check' is proved for arena (inside C11_arena_safe) and heap (C11_heap_safe) only; for stack/pool the theorems cover the runs that do not abort",
-    "GeneralAllocator (libc malloc) and GCAllocator (property C10) are outside the Coq model; AlignedAllocator and the span*/x*/new/delete wrappers of Allocator_implement_interface are exercised by the correspondence stream (span*) but by no theorem",
-    "release builds (checks compiled out) are not exercised",
+    "memory level: 'the allocator never writes inside a live payload' is not a separate theorem (the refinement constrains header words; payload bytes live in a separate byte function)",
+    "memory level: dealloc/realloc of a pointer that is NOT a chunk header (stale pointer into a payload, foreign pointer) - the cookie test reads client-controlled bytes there; proved only at the abstract level and, at the memory level, for headers of free chunks",
+    "'a valid history never trips a run-time check' is proved for arena and heap (both models) only; for stack/pool the theorems cover the runs that do not abort",
+    "AlignedAllocator: alignment arithmetic and single-step alloc spec are proved, a history-level safety theorem (headers of live aligned blocks are never overwritten) is not; its default realloc's memory.move is not a contents theorem",
+    "stack/pool: realloc never moves a block (it returns p or nil), contents preservation is therefore not stated separately",
+    "GeneralAllocator (libc) and GCAllocator (C10) are outside the Coq models; release builds (checks compiled out) are not exercised",
+    "get_bin_index_range is proved with the literal constants 24/3/28: a BIN_COUNT retune needs that lemma re-proved",
 ]
 
 
